@@ -787,6 +787,7 @@ func (c *Ctx) c04OpenFindings() {
 		{"float-constant-operand", "func f(i int) float64 { x := i / 2.0; return float64(x) }", "f", []goat.Value{mkArg("int32", 7)}, "3:float64"},
 		{"constant-shift-in-expression", "func f(x int32, s int32) int32 { return x + 1<<s>>s }", "f", []goat.Value{mkArg("int32", 5), mkArg("int32", 31)}, "4:int32"},
 		{"float-constant-operand", "func f(i int) float64 { x := i; x = 6.0; y := x / 4; return float64(y) }", "f", []goat.Value{mkArg("int32", 7)}, "1:float64"},
+		{"any-slot-adopts-previous-type", "func f(i int) any { var x any = uint8(i); x = 300; return x }", "f", []goat.Value{mkArg("int32", 1)}, "300:int32"},
 		// (not a finding, its counterpart: a slot that is an any keeps a float stored after an integer)
 		{"-", "func f(i int) any { var x any = i; x = 2.5; return x }", "f", []goat.Value{mkArg("int32", 7)}, "2.5:float64"},
 		{"-", "type T struct { V any }\nfunc f(i int) any { t := &T{}; t.V = i; g := 2.5; t.V = g; return t.V }", "f", []goat.Value{mkArg("int32", 7)}, "2.5:float64"},
